@@ -50,6 +50,12 @@ pub fn arm() -> u64 {
     COUNT.with(|c| c.get())
 }
 
+/// start counting without resetting the running maximum
+pub fn arm_keep_max() -> u64 {
+    ARMED.with(|a| a.set(true));
+    COUNT.with(|c| c.get())
+}
+
 /// stop counting; returns the number of allocations since `arm`
 pub fn disarm(before: u64) -> u64 {
     ARMED.with(|a| a.set(false));
